@@ -283,6 +283,11 @@ pub enum Op {
     CloneSwap { m: M },
     Collect { m: M },
     FromIter { m: M, items: Vec<PRef> },
+    /// insert `n` pseudo-random distinct prefixes below `under` (scale: hundreds of entries)
+    BulkInsert { m: M, under: PRef, n: u16, seed: u64 },
+    /// insert the complete chain of nested prefixes (every length 0..=W) along one address, in a
+    /// seed-dependent order; the chain members are appended to the case's universe
+    ChainInsert { m: M, along: PRef, seed: u64 },
 }
 
 impl Op {
@@ -330,6 +335,8 @@ impl Op {
             Op::CloneSwap { .. } => "clone_swap",
             Op::Collect { .. } => "collect",
             Op::FromIter { .. } => "from_iter",
+            Op::BulkInsert { .. } => "bulk_insert",
+            Op::ChainInsert { .. } => "chain_insert",
         }
     }
     pub fn side(&self) -> Option<M> {
@@ -349,7 +356,9 @@ impl Op {
             | Op::ViewMut { m, .. }
             | Op::CloneSwap { m }
             | Op::Collect { m }
-            | Op::FromIter { m, .. } => Some(*m),
+            | Op::FromIter { m, .. }
+            | Op::BulkInsert { m, .. }
+            | Op::ChainInsert { m, .. } => Some(*m),
             Op::SetOpMut { .. } => None,
         }
     }
